@@ -18,13 +18,17 @@ CHECKS['C01'] = dict(text="Theorems over the Core model (all interleavings of ma
   "configuration parameter and schedule; chunks cover exactly the input prefix (C14); sorting index-tagged results gives "
   "input order. Tie: generated guards + Spec lemmas, every real worker instance's log replayed through Core.step, every "
   "add_task through the generated selection kernel, and an end-to-end differential against the sequential reference "
-  "over structured scenarios (4 start methods, all element kinds, generators, ndarrays). Partial: the imap reorder buffer "
-  "and the argument-unpacking convention are covered by the end-to-end runs only; transport assumed value preserving.",
+  "over structured scenarios (4 start methods, all element kinds, generators, ndarrays). Also proved: the imap reorder buffer "
+  "(loop read off pool.imap) yields input order for EVERY arrival order (differential against the real loop), and, over the history "
+  "model (apply_async included), every completed call runs with its own function. Partial: the argument-unpacking convention is "
+  "a kernel + end-to-end runs; transport assumed value preserving.",
   ref="5/C01", technique="Coq proof (conservation invariant over all schedules) + trace conformance + differential")
 CHECKS['C02'] = dict(text="Theorems over the Core model for all schedules and configurations: at every moment the execution log is a "
   "sub-multiset of the inputs (never more than once, also in calls cut short), and on completion it is a permutation of "
   "the inputs (exactly once), across lifespan restarts. Tie as for C01 plus the user function's own append-only "
-  "invocation log compared as a multiset with the inputs on every run.", ref="5/C02",
+  "invocation log (which records WHICH function was entered) compared as a multiset with the inputs on every run, also over "
+  "histories on one pool (other functions, repeated calls, apply batches); history-model theorems: tasks run the call's own function, "
+  "replacement instances get the same parameters.", ref="5/C02",
   technique="Coq proof (token conservation invariant) + trace conformance + invocation-log oracle")
 CHECKS['C16'] = dict(text="Theorems: (Core, all schedules) with order_tasks the k-th add_task carries chunk k and goes to worker "
   "k mod n_jobs, and every task is executed by that worker, across lifespan restarts; (history model whose resets and "
@@ -68,8 +72,10 @@ CHECKS['C03'] = dict(text="Theorems (Core, every configuration: n_jobs>=1, non-e
   "protocol invariant (hand-shake counters, joinable-queue counters, pill placement, tokens in flight) proved for every step. "
   "Tie: all guards regenerated from the source (dispatch waits, loop guard, restart condition, results hand-shake and its reset, "
   "iterator exhaustion), instance logs replayed through Core.step, watchdogged runs over stress configurations (hang = watchdog "
-  "expires twice, with all thread stacks in the replay). Partial: failure paths, apply, progress-bar hand-shake, pipe capacity "
-  "and fork are outside Core; they are exercised by the runs only.", ref="5/C03",
+  "expires twice, with all thread stacks in the replay). The failure path is covered by the Fail model (C03_failing_call_terminates: "
+  "a fair schedule ends with main returned or raised; waits of the dispatch loop and terminate's drain loop read off the source) "
+  "and by failing calls with large queued arguments. Partial: apply, progress-bar hand-shake (C19), pipe capacity and fork are "
+  "outside these models; they are exercised by the runs only.", ref="5/C03",
   technique="Coq proof (protocol invariant + progress + strictly decreasing measure, all schedules) + trace conformance + watchdog")
 CHECKS['C13'] = dict(text="Theorems: the extras list worker._set_additional_args builds is worker id, shared objects, worker state in "
   "that order for all 8 subsets (kernel translated from the source); call-site facts read off the source (extras before task "
